@@ -274,4 +274,54 @@ theorem execIters_heap {fuel ctx stack σ t body items σ'}
     (h : execIters fuel ctx stack σ t body items = .ok σ') : σ'.heap = σ.heap :=
   (frame_all fuel).2.2 _ _ _ _ _ _ _ h
 
+
+/-! ## Writing and reading the innermost cell -/
+
+theorem assocGet_assocSet_same {α : Type} (x : String) (v : α) (c : List (String × α)) :
+    assocGet x (assocSet x v c) = some v := by
+  induction c with
+  | nil => simp [assocSet, assocGet]
+  | cons p rest ih =>
+    obtain ⟨k, w⟩ := p
+    by_cases hk : k = x
+    · simp [assocSet, assocGet, hk]
+    · simp [assocSet, assocGet, hk, ih]
+
+theorem assocGet_assocSet_other {α : Type} (x y : String) (v : α) (c : List (String × α)) (hne : y ≠ x) :
+    assocGet y (assocSet x v c) = assocGet y c := by
+  induction c with
+  | nil => simp [assocSet, assocGet, Ne.symm hne]
+  | cons p rest ih =>
+    obtain ⟨k, w⟩ := p
+    by_cases hk : k = x
+    · subst hk; simp [assocSet, assocGet, Ne.symm hne]
+    · by_cases hy : k = y
+      · subst hy; simp [assocSet, assocGet, hk]
+      · simp [assocSet, assocGet, hk, hy, ih]
+
+theorem heapSet_getElem?_same (h : Heap) (id : Nat) (x : String) (v : Val) (hid : id < h.length) :
+    (heapSet h id x v)[id]? = some (assocSet x v h[id]) := by
+  unfold heapSet
+  rw [List.getElem?_eq_getElem hid]
+  simp [hid]
+
+/-- a variable written into the innermost cell is what a lookup from that scope finds -/
+theorem lookup_heapSet_same (ctx : Scope) (h : Heap) (cell : Nat) (rest : List Nat) (x : String) (v : Val)
+    (hid : cell < h.length) : lookup ctx (heapSet h cell x v) (cell :: rest) x = some v := by
+  simp [lookup, lookupIn, heapSet_getElem?_same h cell x v hid, assocGet_assocSet_same]
+
+/-- … and no other variable of that cell is disturbed -/
+theorem heapSet_other (h : Heap) (cell : Nat) (x y : String) (v : Val) (hne : y ≠ x) (hid : cell < h.length) :
+    ((heapSet h cell x v)[cell]?).bind (assocGet y) = (h[cell]?).bind (assocGet y) := by
+  rw [heapSet_getElem?_same h cell x v hid, List.getElem?_eq_getElem hid]
+  simp [assocGet_assocSet_other x y v _ hne]
+
+
+theorem execBlock_nil {n ctx stack σ σ' fl} (h : execBlock n ctx stack σ [] = .ok (σ', fl)) :
+    σ' = σ ∧ fl = .normal := by
+  cases n with
+  | zero => simp [execBlock] at h
+  | succ k => simp [execBlock] at h; exact ⟨h.1.symm, h.2.symm⟩
+
+
 end MJ.C03
